@@ -104,18 +104,16 @@ pub fn summary_stream(sum: &J, cp: i64, layout: &str) -> Vec<u8> {
     b
 }
 
-pub fn encode_image(img: &J) -> Result<Vec<u8>, String> {
+/// The streams of an image: (root class id, [(container name, bytes)]).
+pub fn image_streams(img: &J) -> Result<(String, Vec<(String, Vec<u8>)>), String> {
     let cp = img["cp"].as_i64().unwrap_or(0);
     let long = img["longrefs"].as_bool().unwrap_or(false);
-    let int1 = img["int1"].as_bool().unwrap_or(false);
-    let mut comp = cfb::CompoundFile::create(Cursor::new(Vec::new())).map_err(|e| e.to_string())?;
     let clsid = match img["ptype"].as_str().unwrap_or("Installer") {
         "Patch" => CLSID_PATCH,
         "Transform" => CLSID_TRANSFORM,
         _ => CLSID_INSTALLER,
     };
-    comp.set_storage_clsid("/", uuid::Uuid::parse_str(clsid).unwrap()).map_err(|e| e.to_string())?;
-    // string pool
+    let mut out: Vec<(String, Vec<u8>)> = Vec::new();
     let mut pool = Vec::new();
     let mut data = Vec::new();
     put32(&mut pool, (cp as u32) | if long { 0x8000_0000 } else { 0 });
@@ -131,13 +129,8 @@ pub fn encode_image(img: &J) -> Result<Vec<u8>, String> {
         put16(&mut pool, rc);
         data.extend_from_slice(&b);
     }
-    let mut put = |name: &str, bytes: &[u8]| -> Result<(), String> {
-        let mut s = comp.create_stream(name).map_err(|e| format!("create {:?}: {}", name, e))?;
-        s.write_all(bytes).map_err(|e| e.to_string())?;
-        s.flush().map_err(|e| e.to_string())
-    };
-    put(&pack_name("_StringPool", true), &pool)?;
-    put(&pack_name("_StringData", true), &data)?;
+    out.push((pack_name("_StringPool", true), pool));
+    out.push((pack_name("_StringData", true), data));
     for t in img["tables"].as_array().cloned().unwrap_or_default() {
         let name = from_cps(&t["name"]);
         let words: Vec<i64> = t["words"].as_array().cloned().unwrap_or_default().iter().map(|w| w.as_i64().unwrap_or(0)).collect();
@@ -146,31 +139,47 @@ pub fn encode_image(img: &J) -> Result<Vec<u8>, String> {
         for (ci, w) in words.iter().enumerate() {
             for r in &rows {
                 let c = &r[ci];
+                let raw = c.get("raw").and_then(|x| x.as_u64());
                 if w & 0x800 != 0 {
-                    let v = c.get("r").and_then(|x| x.as_u64()).unwrap_or(0) as u32;
+                    let v = raw.unwrap_or_else(|| c.get("r").and_then(|x| x.as_u64()).unwrap_or(0)) as u32;
                     b.extend_from_slice(&(v as u16).to_le_bytes());
                     if long {
                         b.push((v >> 16) as u8);
                     }
                 } else if w & 0xff == 4 {
-                    let v = match c.get("i") { Some(i) => (i.as_i64().unwrap() + 0x8000_0000) as u32, None => 0 };
+                    let v = match (raw, c.get("i")) { (Some(x), _) => x as u32, (_, Some(i)) => (i.as_i64().unwrap() + 0x8000_0000) as u32, _ => 0 };
                     b.extend_from_slice(&v.to_le_bytes());
                 } else {
-                    let v = match c.get("i") { Some(i) => (i.as_i64().unwrap() + 0x8000) as u16, None => 0 };
+                    let v = match (raw, c.get("i")) { (Some(x), _) => x as u16, (_, Some(i)) => (i.as_i64().unwrap() + 0x8000) as u16, _ => 0 };
                     b.extend_from_slice(&v.to_le_bytes());
                 }
             }
         }
-        put(&pack_name(&name, true), &b)?;
+        out.push((pack_name(&name, true), b));
     }
-    // the integer field size 1 variant (some writers store 1 for 16-bit columns) is a property of
-    // the _Columns rows, which TLC already put into the image when int1 is chosen
-    let _ = int1;
     let sum_cp = img["summary"]["codepage"]["i"].as_i64().unwrap_or(65001);
-    put("\u{5}SummaryInformation", &summary_stream(&img["summary"], sum_cp, img["pslayout"].as_str().unwrap_or("asc")))?;
+    out.push(("\u{5}SummaryInformation".to_string(), summary_stream(&img["summary"], sum_cp, img["pslayout"].as_str().unwrap_or("asc"))));
     for s in img["streams"].as_array().cloned().unwrap_or_default() {
-        put(&pack_name(&from_cps(&s["name"]), false), &stream_bytes(s["data"].as_str().unwrap_or("")))?;
+        out.push((pack_name(&from_cps(&s["name"]), false), stream_bytes(s["data"].as_str().unwrap_or(""))));
+    }
+    Ok((clsid.to_string(), out))
+}
+
+pub fn build_cfb(clsid: &str, streams: &[(String, Vec<u8>)]) -> Result<Vec<u8>, String> {
+    let mut comp = cfb::CompoundFile::create(Cursor::new(Vec::new())).map_err(|e| e.to_string())?;
+    if let Ok(u) = uuid::Uuid::parse_str(clsid) {
+        comp.set_storage_clsid("/", u).map_err(|e| e.to_string())?;
+    }
+    for (name, bytes) in streams {
+        let mut s = comp.create_stream(name).map_err(|e| format!("create {:?}: {}", name, e))?;
+        s.write_all(bytes).map_err(|e| e.to_string())?;
+        s.flush().map_err(|e| e.to_string())?;
     }
     comp.flush().map_err(|e| e.to_string())?;
     Ok(comp.into_inner().into_inner())
+}
+
+pub fn encode_image(img: &J) -> Result<Vec<u8>, String> {
+    let (clsid, streams) = image_streams(img)?;
+    build_cfb(&clsid, &streams)
 }
